@@ -19,7 +19,11 @@ for sid in ids:
     shutil.rmtree(scratch, ignore_errors=True)
     os.makedirs(scratch)
     shutil.copytree('/repo/include', os.path.join(scratch, 'include'))
-    p = subprocess.run(['patch', '-p1', '-s', '-d', scratch, '-i', os.path.join(d, 'patch.diff')], stdout=subprocess.PIPE, stderr=subprocess.STDOUT, text=True)
+    # a seed written against an earlier tree may not apply after later `fix:` commits: patch_rebased.diff is the same change re-anchored
+    pf = os.path.join(d, 'patch_rebased.diff')
+    if not os.path.exists(pf):
+        pf = os.path.join(d, 'patch.diff')
+    p = subprocess.run(['patch', '-p1', '-s', '-d', scratch, '-i', pf], stdout=subprocess.PIPE, stderr=subprocess.STDOUT, text=True)
     if p.returncode != 0:
         print(f"{sid}: patch does not apply: {p.stdout[-300:]}")
         shutil.rmtree(scratch, ignore_errors=True)
